@@ -5,7 +5,8 @@ PROPERTY = "C09"
 
 
 def tasks(tier):
-    return contract_tasks("contracts.scheduler", "C09", tier=tier) + contract_tasks("contracts.sim_process", "C09", tier=tier)
+    return contract_tasks("contracts.scheduler", "C09", tier=tier) + contract_tasks("contracts.sim_process", "C09", tier=tier) \
+        + contract_tasks("contracts.run_prelude", "C09", tier=tier)
 
 
 TRUSTED_BASE = TRUSTED_CORE
